@@ -36,7 +36,7 @@ MODELS = {
                  ('Ddmin', 'MC_Ddmin_par3.cfg', 3000, SEQ),
                  ('Ddmin', 'MC_Ddmin_seq.cfg', 900, PARA)],
 }
-NRUNS = {'quick': 54, 'thorough': 900}
+NRUNS = {'quick': 54, 'thorough': 300}
 CLAUSES = {
     'adopted-candidate-not-accepted-by-a-check-against-current-base',
     'adopted-candidate-not-accepted-by-a-check-against-current-input',
